@@ -2,11 +2,11 @@
    level (printer and recursive-descent parser), query planning, the hash join
    and condition evaluation. *)
 From Coq Require Import List NArith ZArith Bool Arith.
-From PyD Require Import Base.Str Base.Dec Base.Graph Model.Tsdb Model.Hier.
+From PyD Require Import Base.Str Base.Dec Base.Graph Model.Tsdb Model.TsdbDate Model.Hier.
 Import ListNotations.
 
 (* ---- conditions ---- *)
-Inductive lit := LInt (z : Z) | LStr (s : str).
+Inductive lit := LInt (z : Z) | LStr (s : str) | LDate (t : dt).
 Inductive cmpop := OEq | ONe | OLt | OLe | OGt | OGe | ORe | ONre.     (* == != < <= > >= ~ !~ *)
 
 Inductive cond :=
@@ -18,7 +18,8 @@ Inductive cond :=
 (* ---- tokens of the condition part of a query ---- *)
 Inductive tok :=
 | KWhere | KAnd | KOr | KNot | KLp | KRp | KDot
-| KOp (o : cmpop) | KInt (z : Z) | KStr (s : str) | KId (s : str).
+| KOp (o : cmpop) | KInt (z : Z) | KStr (s : str) | KId (s : str)
+| KDate (t : dt).       (* a date literal; the instant is what tsdb.cast makes of its text (C08) *)
 
 (* printer: ctx 0 = a disjunction is expected, 1 = a conjunction, 2 = an atom;
    nested and/or are parenthesised where needed and every `not` always is *)
@@ -33,6 +34,7 @@ Fixpoint print (ctx : nat) (c : cond) : list tok :=
   match c with
   | CCmp o col (LInt z) => [KId col; KOp o; KInt z]
   | CCmp o col (LStr s) => [KId col; KOp o; KStr s]
+  | CCmp o col (LDate t) => [KId col; KOp o; KDate t]
   | CNot x => [KLp; KNot] ++ print 0 x ++ [KRp]
   | COr cs =>
       let body := join_tok KOr (map (print 1) cs) in
@@ -51,6 +53,7 @@ Definition parse_statement (col : str) (ts : list tok) : option (cond * list tok
   match ts with
   | KOp o :: KInt z :: rest => if regex_op o then None else Some (CCmp o col (LInt z), rest)
   | KOp o :: KStr s :: rest => if order_op o then None else Some (CCmp o col (LStr s), rest)
+  | KOp o :: KDate t :: rest => if regex_op o then None else Some (CCmp o col (LDate t), rest)
   | _ => None
   end.
 
@@ -204,6 +207,7 @@ Definition type_ok (t : dtype) (v : lit) : bool :=
   | TStr, LStr _ => true
   | TInt, LInt _ => true
   | TFloat, LInt _ => true
+  | TDate, LDate _ => true
   | _, _ => false
   end.
 
@@ -355,6 +359,45 @@ Definition sel_index (cols : list (str * tfield)) (q : qname) : option nat :=
   | None => bare_index cols (snd q)
   end.
 
+(* comparisons on a :date column: the stored text is cast by tsdb.cast (C08); a text
+   that is not a date casts to None (with a warning) and then behaves as an empty field *)
+Definition is_tdate (t : dtype) : bool := match t with TDate => true | _ => false end.
+
+Fixpoint lex_cmp (a b : list N) : comparison :=
+  match a, b with
+  | x :: a', y :: b' => match N.compare x y with Eq => lex_cmp a' b' | c => c end
+  | [], [] => Eq
+  | [], _ => Lt
+  | _, [] => Gt
+  end.
+
+Definition dt_cmp (a b : dt) : comparison :=
+  lex_cmp [dy a; dmo a; dd a; dh a; dmi a; TsdbDate.ds a] [dy b; dmo b; dd b; dh b; dmi b; TsdbDate.ds b].
+
+Definition eval_date (op : cmpop) (r : raw) (v : lit) : option bool :=
+  let cast : option (option dt) :=
+    match r with
+    | None => Some None
+    | Some [] => Some None
+    | Some s => match parse_datetime s with
+                | DSome d => Some (Some d)
+                | DNone => Some None
+                | DNow | DKeyError => None          (* the clock / an exception *)
+                end
+    end in
+  match cast, op, v with
+  | None, _, _ => None
+  | Some None, ONre, _ => Some true
+  | Some None, _, _ => Some false
+  | Some (Some d), OEq, LDate z => Some (match dt_cmp d z with Eq => true | _ => false end)
+  | Some (Some d), ONe, LDate z => Some (match dt_cmp d z with Eq => false | _ => true end)
+  | Some (Some d), OLt, LDate z => Some (match dt_cmp d z with Lt => true | _ => false end)
+  | Some (Some d), OLe, LDate z => Some (match dt_cmp d z with Gt => false | _ => true end)
+  | Some (Some d), OGt, LDate z => Some (match dt_cmp d z with Gt => true | _ => false end)
+  | Some (Some d), OGe, LDate z => Some (match dt_cmp d z with Lt => false | _ => true end)
+  | _, _, _ => None
+  end.
+
 (* None = exception while evaluating *)
 Fixpoint eval (o : regex_oracle) (cols : list (str * tfield)) (row : list raw) (c : rcond) : option bool :=
   match c with
@@ -363,6 +406,7 @@ Fixpoint eval (o : regex_oracle) (cols : list (str * tfield)) (row : list raw) (
       | None => None
       | Some i =>
           let t := match nth_error cols i with Some (_, f) => tf_type f | None => TStr end in
+          if is_tdate t then eval_date op (nth_raw row i) v else
           match cast_val t (nth_raw row i), op, v with
           | CErr, _, _ => None
           | COk VNone, ONre, _ => Some true
